@@ -54,9 +54,13 @@ func c14Destinations(p disttypes.Params) []string {
 	var out []string
 	add := func(a disttypes.Account) {
 		if a.Type == disttypes.ModuleAccount || a.Type == disttypes.BaseAccount {
-			if !seen[a.Id] {
-				seen[a.Id] = true
-				out = append(out, a.Id)
+			id := a.Id
+			if a.Type == disttypes.BaseAccount {
+				id = canonBaseID(id)
+			}
+			if !seen[id] {
+				seen[id] = true
+				out = append(out, id)
 			}
 		}
 	}
@@ -211,7 +215,7 @@ func c14Exec(tr *kernel.Trace, src kernel.Source) *Outcome {
 	for _, sd := range gs.Params.SubDistributors {
 		for _, s := range sd.Sources {
 			if s.Type == disttypes.ModuleAccount || s.Type == disttypes.BaseAccount {
-				srcCount[s.Type+"-"+s.Id]++
+				srcCount[s.Type+"-"+canonBaseID(s.Id)]++
 			}
 		}
 	}
